@@ -165,6 +165,47 @@ fn do_parse(s: &str, unit: bool) -> Value {
     }
 }
 
+#[derive(serde::Deserialize)]
+struct DbDoc {
+    #[serde(default)]
+    constants: Vec<serde_cbor::Value>,
+}
+
+/// decode every constant of one shipped data file completely, re-encode it and decode again (C17 stand-in)
+fn do_constants(path: &str) -> Value {
+    let r = catch_unwind(AssertUnwindSafe(|| {
+        let bytes = match std::fs::read(path) {
+            Ok(b) => b,
+            Err(e) => return json!({"err": e.to_string()}),
+        };
+        let doc: DbDoc = match serde_cbor::from_reader(flate2::read::GzDecoder::new(std::io::Cursor::new(bytes))) {
+            Ok(d) => d,
+            Err(e) => return json!({"err": format!("file does not decode: {}", e)}),
+        };
+        let mut out = Vec::new();
+        for v in doc.constants {
+            let enc = serde_cbor::to_vec(&v).expect("re-encode value");
+            let c: Result<anything::Constant, _> = serde_cbor::from_slice(&enc);
+            match c {
+                Err(e) => out.push(json!({"decode_err": e.to_string(), "raw": format!("{:?}", v).chars().take(200).collect::<String>()})),
+                Ok(c) => {
+                    let enc2 = serde_cbor::to_vec(&c).expect("encode constant");
+                    match serde_cbor::from_slice::<anything::Constant>(&enc2) {
+                        Err(e) => out.push(json!({"redecode_err": e.to_string(), "tokens": c.tokens})),
+                        Ok(c2) => out.push(json!({"tokens": c.tokens, "eq": c.value == c2.value && c.unit == c2.unit && c.description == c2.description && c.source == c2.source && c.tokens == c2.tokens,
+                            "value": rat_json(&c.value), "unit": unit_json(&c.unit), "has_description": !c.description.is_empty()})),
+                    }
+                }
+            }
+        }
+        json!({"constants": out})
+    }));
+    match r {
+        Ok(v) => v,
+        Err(e) => json!({"panic": panic_msg(e)}),
+    }
+}
+
 fn big(s: &str) -> num::BigInt {
     s.parse().expect("bigint")
 }
@@ -254,6 +295,26 @@ fn main() {
                 })) {
                     Ok(Ok(v)) => v,
                     Ok(Err(e)) => json!({"err": e}),
+                    Err(e) => json!({"panic": panic_msg(e)}),
+                }
+            }
+            "constants" => do_constants(cmd["path"].as_str().unwrap_or("")),
+            "derived_id" => {
+                // decode `Unit::Derived(<id>)` from CBOR through the real Deserialize impl (-> id_to_derived) and encode it again
+                let id = cmd["id"].as_u64().unwrap_or(0);
+                let mut m = std::collections::BTreeMap::new();
+                m.insert(serde_cbor::Value::Text("Derived".into()), serde_cbor::Value::Integer(id as i128));
+                let enc = serde_cbor::to_vec(&serde_cbor::Value::Map(m)).expect("encode");
+                match catch_unwind(AssertUnwindSafe(|| serde_cbor::from_slice::<anything::Unit>(&enc))) {
+                    Ok(Ok(u)) => {
+                        let back = serde_cbor::value::to_value(&u).expect("to_value");
+                        let id2 = match back {
+                            serde_cbor::Value::Map(m) => m.into_iter().next().and_then(|(_, v)| if let serde_cbor::Value::Integer(i) = v { Some(i as u64) } else { None }),
+                            _ => None,
+                        };
+                        json!({"decoded": true, "id_back": id2, "debug": format!("{:?}", u)})
+                    }
+                    Ok(Err(e)) => json!({"decoded": false, "err": e.to_string()}),
                     Err(e) => json!({"panic": panic_msg(e)}),
                 }
             }
